@@ -14,16 +14,18 @@ SPEC = dict(
         "triggers of the recorded known findings (see C01/C03) are excluded from generation and counted",
     ],
     quick=[
-        dict(name="l1", pkg=_PKG, test="TestApplyL1", checks=900, shards=2),
-        dict(name="l2", pkg=_PKG, test="TestApplyL2", checks=900, shards=5),
-        dict(name="snap", pkg=_PKG, test="TestApplySnapshot", checks=900, shards=4),
-        dict(name="l3", pkg=_PKG, test="TestApplyL3", checks=4500, shards=5),
+        dict(name="l1", pkg=_PKG, test="TestApplyL1", checks=1300, shards=2),
+        dict(name="l2", pkg=_PKG, test="TestApplyL2", checks=1300, shards=5),
+        dict(name="snap", pkg=_PKG, test="TestApplySnapshot", checks=1300, shards=4),
+        dict(name="l3", pkg=_PKG, test="TestApplyL3", checks=6700, shards=5),
+        dict(name="known", pkg=_PKG, test="TestKnown.*", checks=1, shards=1),
     ],
     thorough=[
         dict(name="l1", pkg=_PKG, test="TestApplyL1", checks=12000, shards=1),
         dict(name="l2", pkg=_PKG, test="TestApplyL2", checks=12000, shards=4),
         dict(name="snap", pkg=_PKG, test="TestApplySnapshot", checks=12000, shards=3),
         dict(name="l3", pkg=_PKG, test="TestApplyL3", checks=60000, shards=8),
+        dict(name="known", pkg=_PKG, test="TestKnown.*", checks=1, shards=1),
     ],
 )
 
@@ -32,5 +34,5 @@ TEXT = dict(
     design_ref="DESIGN.md §3-A, §4 C02",
     technique="property-based testing (rapid) of generated schedules over real raft.Node replicas in a schedule-owning simulator; history-invariant oracle: global index->entry map filled by the first hand-out, gap-free hand-out per incarnation, snapshot (index, term, ConfState) consistency, raft panics",
     level_text="Generated-schedule exploration. Every Ready.CommittedEntries / Ready.Snapshot of every replica and incarnation is compared with a global map index -> (term, type, hash(payload)): same entry everywhere, strictly consecutive indexes per incarnation starting after its snapshot, snapshots only forward and consistent with the map in (index, term) and in ConfState (fold of the applied conf changes). A panic inside raft under a legal schedule is a violation. Half of the thorough budget goes to phase-structured election cases on 3 replicas with one-entry messages (the shape needed to expose commit-rule defects). Held on everything explored outside the excluded triggers; no absence claim.",
-    level_note="Sensitivity: the Figure-8 mutant (maybeCommit without the current-term check) needs the L3 layer; see DESIGN §4 C02 for the measured rate. The three recorded findings that break this property too (single-voter apply-before-WAL, partial bootstrap configuration, RocksStorage stale tail) are listed under C01/C03 and their triggers excluded here. Trusted: the simulator's durability model and apply-side model (see C01).",
+    level_note="One genuine violation is recorded as known finding C02-nonleader-commits-on-conf-replay (a restarted follower that re-applies a RemoveNode leaving it alone in its rebuilt configuration commits its own unreplicated tail). The findings of C01/C03 that break this property too (single-voter apply-before-WAL, partial bootstrap configuration, RocksStorage stale tail, WAL replay resurrecting a truncated suffix) have their triggers excluded here as well. Sensitivity: the Figure-8 mutant (maybeCommit without the current-term check) falls to the quick tier (L3 after 140-700 cases, L2 after 400-800). Trusted: the simulator's durability model and apply-side model (see C01).",
 )
